@@ -22,7 +22,7 @@ RULE = ("claims sets over {iss, sub, aud, exp, nbf, iat, jti, role, x, private n
         "The complete boundary grid (7 offsets x 3 claims x int/float x leeway {0,1,60}) is enumerated. non-trivial: at least one "
         "option present and at least one claim exercising an option or within +-1 of a time boundary; distinct = digest of (option "
         "shapes, value types, boundary offsets, verdict).")
-ASSUMPTIONS = ["DONT_CARE: exp == now-leeway, bool/NaN time values, value and values both given with different verdicts under the both/either readings, "
+ASSUMPTIONS = ["DONT_CARE: exp == now-leeway, value and values both given with different verdicts under the both/either readings, "
                "aud with both value and values or a falsy value or empty values list, empty option dict, requested and actual values that are "
                "equal in Python but of different JSON type (1 == True == 1.0)"]
 BUDGET_S = {"quick": 80, "thorough": 900}
@@ -85,6 +85,9 @@ def cases(draw):
             frac = draw(st.sampled_from([0.0, 0.0, 0.5, -0.5])) if as_float else 0.0
             claims[n] = time_value(off, now, leeway, as_float, frac)
             tv[n] = [off, as_float, frac]
+        elif n in ("exp", "nbf", "iat"):
+            # not a JSON number: booleans, the literals json.loads also accepts, and the other types
+            claims[n] = draw(st.one_of(st.booleans(), st.sampled_from(["$NaN", "$Infinity", "$-Infinity"]), anyv))
         elif n == "aud":
             claims[n] = draw(st.one_of(strv, strv, st.lists(strv, max_size=3), anyv))
         else:
@@ -193,9 +196,8 @@ def oracle(claims, options, now, leeway) -> set:
                 out.add("invalid")
             continue
         if n in ("exp", "nbf", "iat"):
-            if isinstance(v, bool) or (isinstance(v, float) and math.isnan(v)):
-                raise DontCare("bool/NaN as time")
-            if not isinstance(v, (int, float)):
+            if isinstance(v, bool) or not isinstance(v, (int, float)) or (isinstance(v, float) and not math.isfinite(v)):
+                # true / false and the non-JSON literals NaN / Infinity are not numbers
                 out.add("invalid")
                 continue
             if n == "exp":
@@ -213,13 +215,21 @@ def oracle(claims, options, now, leeway) -> set:
     return out
 
 
+_SPECIAL = {"$NaN": float("nan"), "$Infinity": float("inf"), "$-Infinity": float("-inf")}
+
+
+def _mat(claims):
+    """Markers for the non-JSON float literals (kept as strings in records so that evidence and replay files stay valid JSON)."""
+    return {k: (_SPECIAL[v] if isinstance(v, str) and v in _SPECIAL else v) for k, v in claims.items()}
+
+
 def run_case(case) -> dict:
     from joserfc import jwt
     from joserfc.errors import MissingClaimError, InvalidClaimError, ExpiredTokenError, InvalidTokenError, JoseError
     import joserfc.rfc7519.registry as regmod
     classes = {MissingClaimError: "missing", InvalidClaimError: "invalid", ExpiredTokenError: "expired", InvalidTokenError: "not_yet_valid"}
     options, now, leeway = case["options"], case["now"], case["leeway"]
-    sequence = [case["claims"]] + list(case.get("more", []))
+    sequence = [_mat(c) for c in [case["claims"]] + list(case.get("more", []))]
     opts = copy.deepcopy(options)
     real_time = regmod.time
     try:
@@ -249,7 +259,7 @@ def run_case(case) -> dict:
             raised = classes[type(e)]
         except Exception as e:
             return {f"C10:unexpected-exception:{type(e).__name__}": f"validate raised {type(e).__name__}: {e} for claims {claims!r} options {options!r}"}
-        if work != before or not _deep_typed_eq(work, before):
+        if repr(work) != repr(before):
             f["C10:claims-modified"] = f"claims changed from {before!r} to {work!r}"
         hist = f" (validation #{idx + 1} with the same registry object; earlier claims sets: {sequence[:idx]!r})" if idx else ""
         if not want:
